@@ -126,6 +126,9 @@ func ProjectFull(t *TD, v reflect.Value) any {
 
 var full bool
 
+// Corrupt is set when a projected value contains an impossible slice header (len > cap).
+var Corrupt bool
+
 // Project maps a Go value (addressable where it contains unexported fields) to its abstract form.
 func Project(t *TD, v reflect.Value) any {
 	switch t.K {
@@ -176,6 +179,9 @@ func Project(t *TD, v reflect.Value) any {
 			es = append(es, Project(t.E, v.Index(i)))
 		}
 		m := M{"nil": v.IsNil(), "e": es}
+		if v.Len() > v.Cap() {
+			Corrupt = true // a slice header with len > cap: something wrote outside its backing array
+		}
 		if full && v.Cap() > v.Len() && v.Cap()-v.Len() <= 16 {
 			sp := []any{}
 			w := v.Slice(0, v.Cap())
@@ -206,6 +212,8 @@ func Project(t *TD, v reflect.Value) any {
 		return Project(envOf(t.N), v)
 	case "jsonobj", "jsonarr":
 		return ProjectJSON(v.Interface())
+	case "unsup":
+		return []any{} // opaque: fields of unsupported kinds are never encoded
 	}
 	panic("Project kind " + t.K)
 }
@@ -386,6 +394,9 @@ func Build(t *TD, x any, v reflect.Value) {
 			k := reflect.New(v.Type().Key()).Elem()
 			e := reflect.New(v.Type().Elem()).Elem()
 			Build(t.Key, p[0], k)
+			if k.Type() == reflect.TypeOf(time.Time{}) {
+				k.Set(reflect.ValueOf(k.Interface().(time.Time).UTC())) // time keys compare by location too: keep them in UTC
+			}
 			Build(t.Val, p[1], e)
 			mv.SetMapIndex(k, e)
 		}
@@ -397,6 +408,7 @@ func Build(t *TD, x any, v reflect.Value) {
 		}
 	case "ref":
 		Build(envOf(t.N), x, v)
+	case "unsup":
 	case "jsonobj", "jsonarr":
 		j := BuildJSON(x)
 		if j == nil {
